@@ -1267,21 +1267,38 @@ func checkCallbackProducersHandOverInline(c *Ctx, rule string) {
 func checkFoundIndexSetsAccumulate(c *Ctx, rule string) {
 	p := c.P
 	n := 0
-	for _, fn := range p.FuncsIn("chain") {
-		if fn.Signature.Recv() == nil || recvName(fn) != "BlockFilterer" {
-			continue
+	// the outer map is identified by its type (scope -> set of indexes) and named by the field or parameter it is
+	// reached through, so a helper that takes the map explicitly is read like the two methods it replaces
+	isIndexSet := func(t types.Type) bool {
+		m, ok := t.Underlying().(*types.Map)
+		if !ok {
+			return false
 		}
+		if b, ok := m.Key().Underlying().(*types.Basic); !ok || b.Kind() != types.Uint32 {
+			return false
+		}
+		st, ok := m.Elem().Underlying().(*types.Struct)
+		return ok && st.NumFields() == 0
+	}
+	mapName := func(v ssa.Value) (string, bool) {
+		v = stripConv(v)
+		if _, f, _, ok := fieldOf(v); ok {
+			return "field:" + f, true
+		}
+		if pr, ok := v.(*ssa.Parameter); ok {
+			return "param:" + pr.Name(), true
+		}
+		return "", false
+	}
+	for _, fn := range p.FuncsIn("chain") {
 		for _, b := range fn.Blocks {
 			for _, ins := range b.Instrs {
 				mu, ok := ins.(*ssa.MapUpdate)
-				if !ok {
+				if !ok || !isIndexSet(mu.Value.Type()) {
 					continue
 				}
-				_, f, _, okf := fieldOf(stripConv(mu.Map))
-				if !okf || !strings.HasPrefix(f, "Found") {
-					continue
-				}
-				if _, isMap := mu.Value.Type().Underlying().(*types.Map); !isMap {
+				f, okf := mapName(mu.Map)
+				if !okf {
 					continue
 				}
 				n++
@@ -1293,24 +1310,24 @@ func checkFoundIndexSetsAccumulate(c *Ctx, rule string) {
 					}
 					if ex, ok := ef.V.(*ssa.Extract); ok && ex.Index == 1 && ef.Kind == "false" {
 						if lk, ok := ex.Tuple.(*ssa.Lookup); ok {
-							_, f2, _, ok2 := fieldOf(stripConv(lk.X))
+							f2, ok2 := mapName(lk.X)
 							return ok2 && f2 == f
 						}
 					}
 					if ef.Kind == "nil" {
 						if lk, ok := stripConv(ef.V).(*ssa.Lookup); ok {
-							_, f2, _, ok2 := fieldOf(stripConv(lk.X))
+							f2, ok2 := mapName(lk.X)
 							return ok2 && f2 == f
 						}
 					}
 					return false
 				})
-				c.Check(rule, "found-index-set-created-only-when-missing:"+fn.Name()+"."+f, mu.Pos(), !unguarded,
+				c.Check(rule, "found-index-set-created-only-when-missing:"+fn.Name()+"."+strings.TrimPrefix(strings.TrimPrefix(f, "field:"), "param:"), mu.Pos(), !unguarded,
 					fnName(fn)+" assigns a new index set to "+f+"[scope] without having found the scope's set missing: every hit replaces the indexes found earlier in the same block, so only the last-matched address of a scope and branch is reported and the others are never recovered")
 			}
 		}
 	}
-	c.Floor(rule, "per-scope found-set creations in the block filterer", n, 2)
+	c.Floor(rule, "per-scope found-set creations in the block filterer", n, 1)
 }
 
 // checkFilterRequestCarriesEveryAddress: the request handed to FilterBlocks lists every address of both branches'
